@@ -237,7 +237,7 @@ async fn execute_field<'a>(
     mode: ExecutionMode,
     object_type: &ObjectType,
     object_value: MaybeAsyncObject<'_>,
-    field_def: &FieldDefinition,
+    field_def: &'a FieldDefinition,
     fields: &[&'a Field],
 ) -> Result<Option<JsonValue>, PropagateNull> {
     let field = fields[0];
@@ -272,7 +272,9 @@ async fn execute_field<'a>(
         },
     };
     let completed_result = match resolved_result {
-        Ok(resolved) => complete_value(ctx, path, mode, field.ty(), resolved, fields).await,
+        // Use the field type as defined by the concrete object type: when the field was
+        // selected through an interface, `field.ty()` is the interface's (possibly wider) type.
+        Ok(resolved) => complete_value(ctx, path, mode, &field_def.ty, resolved, fields).await,
         Err(FieldError { message }) => {
             ctx.errors.push(GraphQLError::field_error(
                 format!("resolver error: {message}"),
